@@ -143,7 +143,12 @@ class FNorm(NormDomain):
 
     def getattr(self, v, name, node):
         if isinstance(v, Sym) and name == 'shape':
-            return Tup([self.sym('rows(%s)' % v.r.key()), self.sym('cols(%s)' % v.r.key())])
+            # elementwise expressions over the height map h and its window w (same shape by construction) have the shape of h
+            import re
+            k = v.r.key()
+            if re.search(r'(?<![A-Za-z0-9_])[hw](?![A-Za-z0-9_])', k):
+                k = 'h'
+            return Tup([self.sym('rows(%s)' % k), self.sym('cols(%s)' % k)])
         return NormDomain.getattr(self, v, name, node)
 
 
@@ -292,6 +297,21 @@ def rms_rules(run, db):
     run.check(getattr(r, 'qual', None) == 'prysm.util.rms', 'C13.rms', f.qual, 'rms binding', "globals()['rms'] is prysm.util.rms", 'module-level rms resolves to %r' % (r,), f.loc())
 
 
+def pure_rules(run, db):
+    """The PSD chain reads its inputs: no in-place write through an argument (the caller's height map / PSD survive the call)."""
+    from .purity import input_mutations
+    I = 'prysm.interferogram.'
+    for q in ('psd', 'bandlimited_rms', 'make_window', '_trapezoid', 'synthesize_surface_from_psd', 'fit_psd', 'abc_psd', 'ab_psd', 'window_2d_welch',
+              'Interferogram.psd', 'Interferogram.bandlimited_rms', 'Interferogram.total_integrated_scatter'):
+        fi = db.func(I + q)
+        muts = input_mutations(fi)
+        for st, name in muts:
+            run.finding('C13.pure', fi.qual, norm_stmt(st), 'in-place write through the argument `%s`: the caller\'s array is modified by the call (a second PSD of the same map, or any later use of it, '
+                        'sees the windowed / scaled data)' % name, fi.loc(st))
+        if not muts:
+            run.ok('C13.pure', fi.qual, 'arguments are not written through')
+
+
 def check(run, db, tier):
     run.trust('ORIGIN typestate; NORM with uninterpreted fft/sum atoms; the installed NumPy/SciPy API surface read by importing those libraries (not prysm); frozen list of names new in NumPy 2.x',
               'GH_FFT scaling: PSD = |FFT(h w)|^2/(sum w^2 fs^2); Parseval; df = 1/(N dx) per axis')
@@ -302,7 +322,9 @@ def check(run, db, tier):
     run.rule('C13.axis', 'ux from the column count, uy from the row count, broadcast as (rows=y, cols=x), stored as (x, y)')
     run.rule('C13.band', 'band mask keeps [flow, fhigh]; each axis is integrated with its own frequency step; result is the square root')
     run.rule('C13.rms', 'synthetic surface: mask, then NaN-aware RMS, scale = requested/measured, applied to the surface')
-    for fn in (api_rules, origin_rules, norm_rules, band_rules, rms_rules):
+    run.rule('C13.pure', 'no function of the PSD chain writes in place through one of its arguments (may-alias over views, joined over branches)')
+    for fn in (api_rules, origin_rules, norm_rules, band_rules, rms_rules, pure_rules):
         run.group(fn, run, db)
     run.require_instances('C13.origin', 4)
+    run.require_instances('C13.pure', 10)
     run.require_instances('C13.api', 50)
